@@ -35,6 +35,20 @@ pub struct ExecParams {
 }
 
 impl ExecParams {
+    /// A long execution on 256-byte memtables and 1 MiB files: hundreds of version edits go to one
+    /// manifest, which grows past the 32 KiB log block size, so that some manifest record is
+    /// written as several fragments.
+    pub fn fat_manifest(rng: &mut Rng) -> ExecParams {
+        ExecParams {
+            n_ops: rng.range(2600, 3400) as usize,
+            family: KeyFamily::Ascii,
+            pool: 60,
+            cfg: Config { memtable: 256, file: 1 << 20, block: 256, reuse: true },
+            big_values: false,
+            reopen_weight: 0,
+        }
+    }
+
     pub fn generate(rng: &mut Rng, idx: u64, n_ops: usize) -> ExecParams {
         ExecParams {
             n_ops,
@@ -152,6 +166,25 @@ pub fn record_execution(rng: &mut Rng, params: &ExecParams) -> Execution {
 }
 
 impl Execution {
+    /// Journal indices (0-based) of manifest writes that touch a 32 KiB log-block boundary: the
+    /// fragments of a record that spans two blocks and the zero padding of a block trailer.
+    pub fn manifest_block_boundary_writes(&self) -> Vec<usize> {
+        const BLOCK: u64 = 32768;
+        let mut out = vec![];
+        for (i, e) in self.journal.iter().enumerate() {
+            if let JOp::Write { offset, data, .. } = &e.op {
+                if e.op.class() == PathClass::Manifest {
+                    let end = *offset + data.len() as u64;
+                    let near = |x: u64| x % BLOCK < 64 || BLOCK - (x % BLOCK) < 64;
+                    if (*offset / BLOCK != end / BLOCK || near(*offset) || near(end)) && end > BLOCK / 2 {
+                        out.push(i);
+                    }
+                }
+            }
+        }
+        out
+    }
+
     /// The two legal contents after a crash with the first `k` mutating calls applied:
     /// (acknowledged writes, acknowledged writes + the write that was in flight).
     pub fn expected_at(&self, k: u64) -> (Map, Option<Map>) {
